@@ -128,10 +128,10 @@ Definition show_run (r : state * list (N * nat * output) * bool) : string :=
 (* one correspondence case: configuration and script *)
 Record case := {
   k_cap : nat; k_handles : nat; k_max_timeouts : option N; k_rmin : N; k_rmax : N; k_res : N;
-  k_rtu : bool; k_script : list event }.
+  k_rtu : bool; k_tx0 : N; k_script : list event }.
 
 Definition eval_case (k : case) : string :=
   let cfg := {| cfg_cap := k_cap k; cfg_res := k_res k |} in
-  let s0 := init (k_handles k) (k_max_timeouts k) (k_rmin k) (k_rmax k) in
+  let s0 := set_txid (init (k_handles k) (k_max_timeouts k) (k_rmin k) (k_rmax k)) (k_tx0 k) in
   let '(s, o, ok) := (if k_rtu k then run_eager_ix_rtu cfg 0 s0 (k_script k) else run_eager_ix cfg 0 s0 (k_script k)) in
   show_run (s, (stamp_ix 0 (stamp 0 init_outputs) ++ o)%list, ok).
